@@ -167,7 +167,7 @@ func runDispatch(ops []cop, hist []int, trace bool) (viol, key string, steps int
 			return
 		}
 		q2 := map[uint16]*cex{} // inbound QoS 2 exchanges at the client
-		var q2order []uint16
+		var q2order []*cex // all exchanges, oldest first (q2: the newest one per identifier)
 		unsubDone := map[string]bool{}
 		_ = unsubDone
 		for _, hi := range hist {
@@ -274,10 +274,12 @@ func runDispatch(ops []cop, hist []int, trace bool) (viol, key string, steps int
 					wantWire = []*refcodec.Packet{{Type: refcodec.PUBACK, ID: o.id}}
 				case 2:
 					wantWire = []*refcodec.Packet{{Type: refcodec.PUBREC, ID: o.id}}
-					if q2[o.id] == nil {
+					// a repetition while the exchange with this identifier is open; a new exchange once
+					// that one was completed by PUBCOMP (even if its message still waits its turn)
+					if q2[o.id] == nil || q2[o.id].released {
 						oc := o
 						q2[o.id] = &cex{op: &oc}
-						q2order = append(q2order, o.id)
+						q2order = append(q2order, q2[o.id])
 					}
 				}
 				if o.qos < 2 {
@@ -290,15 +292,17 @@ func runDispatch(ops []cop, hist []int, trace bool) (viol, key string, steps int
 					ex.released = true
 					// FIFO of exchanges: must be handed on once its PUBREL and those of all
 					// earlier exchanges are processed, may be handed on from its own PUBREL on
-					for len(q2order) > 0 && q2[q2order[0]].released {
-						hd := q2[q2order[0]]
-						delete(q2, q2order[0])
+					for len(q2order) > 0 && q2order[0].released {
+						hd := q2order[0]
+						if q2[hd.op.id] == hd {
+							delete(q2, hd.op.id)
+						}
 						q2order = q2order[1:]
 						if !hd.delivered {
 							addWant(hd.op.topic, hd.op.payload, 1, nil)
 						}
 					}
-					if _, still := q2[o.id]; still {
+					if cur, still := q2[o.id]; still && cur == ex {
 						addWant(ex.op.topic, ex.op.payload, 0, ex)
 					}
 				}
